@@ -28,7 +28,7 @@ pub fn def() -> CheckDef {
         runs_quick: 800_000,
         runs_thorough: 20_000_000,
         rule: "replica agreement between front ends of one mode, each replica under its own seeded schedule and width policy: buffered vs one-shot vs block-level CFB (both directions); OfbCore as encryptor / decryptor / keystream core / Ofb byte stream; CtrCore and BeltCtrCore block-wise vs the byte-level aliases; the six cts types on whole blocks vs cbc::Encryptor/Decryptor resp. the cipher's raw block calls; four ways of constructing every type. distinct = distinct (family, mode, block size, cipher, policies, schedules); non-trivial = >= 1 byte compared",
-        required_probes: &["cfb_three_way", "ofb_four_way", "ctr_core_vs_alias", "belt_core_vs_alias", "cts_one_block", "cts_cs3_swap", "ctor_new", "ctor_slices", "ctor_inner_slice", "core_one_shot_vs_alias", "ctor_then_seek"],
+        required_probes: &["cfb_three_way", "ofb_four_way", "ctr_core_vs_alias", "belt_core_vs_alias", "cts_one_block", "cts_cs3_swap", "ctor_new", "ctor_slices", "ctor_inner_slice", "core_one_shot_vs_alias", "ctor_then_seek", "core_walks_to_start", "rewind_vs_fresh_core"],
         r#gen,
         exec,
         components: "real code on every replica (all nine crates + cipher's front ends); stub: block cipher in most runs (raw block calls of the stub stand for 'raw block encryption'), real ciphers in the rest; no reference model",
@@ -74,7 +74,8 @@ fn r#gen(rng: &mut Rng, thorough: bool) -> Scn {
             }
             let bs = s.bs as u64;
             s.set_num("blocks", rng.nblocks(if bs > 200 { 8 } else { 20 }, 8) as u128);
-            s.set_num("startblk", if rng.chance(1, 3) { rng.below(1 << 20) } else { 0 } as u128);
+            s.set_num("startblk", match rng.below(6) { 0 | 1 => rng.below(1 << 20), 2 => rng.below(200), _ => 0 } as u128);
+            s.set_num("corewalk", rng.below(2) as u128);
             s.set_num("tailbytes", if rng.chance(1, 2) { rng.nbytes(5 * bs, bs) } else { 0 } as u128);
             for _ in 0..1 + rng.usize(maxp) {
                 s.ops.push(Op::new("apply").who(0).n(rng.nbytes(4 * bs, bs)).via(rng.below(N_APPLY_FORMS as u64) as u8));
@@ -250,7 +251,16 @@ fn exec(scn: &Scn, ctx: &mut Ctx) -> Verdict {
             let mut w = mk!(make_stream(&scn.mode, bs, scn.cipher, &scn.key, &scn.iv, 0, 0));
             let mut c = mk!(make_core(&scn.mode, bs, scn.cipher, &scn.key, &scn.iv, 1, 0));
             if sb != 0 {
-                if w.seek(2, sb * bs as u128).is_err() || c.set_pos(sb) != Some(true) {
+                if w.seek(2, sb * bs as u128).is_err() {
+                    invalid!("start");
+                }
+                if sb <= 300 && scn.num("corewalk") == 1 {
+                    // another route: the core walks to the start block by generating keystream
+                    let z = vec![0u8; sb as usize * bs];
+                    let mut o = vec![0u8; z.len()];
+                    c.ks(4, 0, &z, &mut o);
+                    ctx.probe("core_walks_to_start");
+                } else if c.set_pos(sb) != Some(true) {
                     invalid!("start");
                 }
             }
@@ -289,6 +299,27 @@ fn exec(scn: &Scn, ctx: &mut Ctx) -> Verdict {
             }
             if w.block_pos() != c.get_pos() {
                 violation!("core_vs_alias_pos", "{}: block positions differ: alias {:?}, core {:?}", scn.mode, w.block_pos(), c.get_pos());
+            }
+            // rewind: the used alias seeks back, a *fresh* core is positioned there: same bytes again
+            if nb > 0 {
+                if let Ok(mut c2) = make_core(&scn.mode, bs, scn.cipher, &scn.key, &scn.iv, 2, 0) {
+                    if w.seek(2, sb * bs as u128).is_ok() && c2.set_pos(sb) == Some(true) {
+                        let n = bs * nb.min(2);
+                        let (mut o1, mut o2) = (vec![0u8; n], vec![0u8; n]);
+                        if w.apply(0, &msg[..n], &mut o1).is_err() {
+                            violation!("apply_err", "apply after rewinding failed");
+                        }
+                        c2.ks(4, 0, &msg[..n], &mut o2);
+                        ctx.probe("rewind_vs_fresh_core");
+                        if o1 != o2 || o1[..] != ow[..n] {
+                            violation!("core_vs_alias", "{}: after seeking back to block {}, the used byte-level cipher, a fresh core positioned there and the first pass disagree", scn.mode, sb);
+                        }
+                        // put the alias back where it was for the one-shot comparison below
+                        if w.seek(2, (sb + nb as u128) * bs as u128).is_err() {
+                            violation!("seek_err", "seek forward again failed");
+                        }
+                    }
+                }
             }
             // the core's consuming one-shot vs the alias on the following bytes (far from the limit)
             let tail = (scn.num("tailbytes") as usize).min(1 << 12);
